@@ -404,19 +404,30 @@ def matrix_inverse(m):
 
 
 def matrix_determinant(m):
-    """ Computes the determinant of the square matrix :math:`M` via LUP decomposition.
+    """ Computes the determinant of the square matrix :math:`M` via Gaussian elimination with partial pivoting.
 
     :param m: input matrix
     :type m: list, tuple
     :return: determinant of the matrix
     :rtype: float
     """
-    mp, p, sign = matrix_pivot(m, sign=True)
-    m_l, m_u = lu_decomposition(mp)
+    n = len(m)
+    mp = [[float(v) for v in row] for row in m]
     det = 1.0
-    for i in range(len(m)):
-        det *= m_l[i][i] * m_u[i][i]
-    det *= sign
+    for j in range(n):
+        # Choose the largest entry on or below the diagonal of the (partially eliminated) column as the pivot
+        row = max(range(j, n), key=lambda i: abs(mp[i][j]))
+        if mp[row][j] == 0.0:
+            return 0.0
+        if row != j:
+            mp[j], mp[row] = mp[row], mp[j]
+            det = -det
+        det *= mp[j][j]
+        # Eliminate the column below the pivot
+        for i in range(j + 1, n):
+            coeff = mp[i][j] / mp[j][j]
+            for k in range(j + 1, n):
+                mp[i][k] -= coeff * mp[j][k]
     return det
 
 
